@@ -134,7 +134,29 @@ def downstream(tmp, idx, deps):
     return os.path.join(d, 'Cargo.toml')
 
 
+REPO_CRATES = ('zbus', 'zvariant', 'zbus_names', 'zbus_macros', 'zvariant_derive', 'zvariant_utils', 'zbus_xml', 'zbus_xmlgen', 'zbus-lockstep', 'zbus-lockstep-macros')
+
+
+def infrastructure_failure(out):
+    """a failed build that says nothing about the configuration: the generated manifest is gone, or
+    the only crates that fail to compile are registry crates (their build output vanished) while no
+    crate of the repository and no generated downstream crate is named as failing"""
+    import re
+    if re.search(r'manifest path `[^`]*` does not exist', out):
+        return True
+    failing = re.findall(r'could not compile `([^`]+)`', out)
+    if failing and not any(f in REPO_CRATES or f.startswith('down') or f.startswith('verif') for f in failing):
+        return True
+    return False
+
+
 def main():
+    # one run at a time on the shared build directories (a second run waits)
+    import fcntl
+    os.makedirs(os.path.dirname(TARGET), exist_ok=True)
+    _lock = open(TARGET.rstrip('/') + '.lock', 'w')
+    fcntl.flock(_lock, fcntl.LOCK_EX)
+    globals()['_c35_lock'] = _lock
     tier = os.environ.get('VERIF_TIER', 'quick')
     replay = None
     a = sys.argv[1:]
@@ -196,6 +218,7 @@ def main():
     kn = known()
     results = []
     violations = []
+    infra = []
     excluded = {}
     seen_known = set()
     nontrivial = set()
@@ -206,6 +229,12 @@ def main():
             ok, out = cargo_check(manifest, feats if kind == 'crate' else [], nodef)
         desc = {'kind': kind, 'crate': crate, 'features': feats} if kind in ('crate', 'workspace') else {'kind': kind, 'deps': feats}
         key = None
+        if not ok and infrastructure_failure(out):
+            # not a verdict on the configuration: the build tree was disturbed (another run cleaning
+            # the shared directories, a registry crate's build output gone, ...)
+            infra.append((desc, out))
+            results.append((desc, True))
+            continue
         if not ok:
             # classify: downstream crate that enables zvariant/gvariant next to zbus
             if kind == 'downstream' and any(d[0] == 'zvariant' and 'gvariant' in d[1] for d in feats) and any(d[0] == 'zbus' for d in feats):
@@ -278,6 +307,11 @@ def main():
         os.makedirs(os.path.join(OUT, 'evidence'), exist_ok=True)
         json.dump(ev, open(os.path.join(OUT, 'evidence', f'{PID}.json'), 'w'), indent=1)
     print(f'{PID}: tier={tier} seed={seed} configurations={len(results)} nontrivial={len(nontrivial)} excluded_known={excluded} wall={wall:.0f}s')
+    if infra and not violations:
+        for desc, out in infra[:3]:
+            print(f'  configuration {desc}: the build failed for a reason outside the repository:\n' + '\n'.join('    ' + l for l in out.splitlines()[-6:]))
+        print(f'INFRA: {len(infra)} configuration(s) could not be judged (build tree disturbed); inconclusive')
+        sys.exit(2)
     if violations:
         for path, desc, out in violations:
             print(f'  configuration {desc} does not build:\n' + '\n'.join('    ' + l for l in out.splitlines()[-12:]))
